@@ -198,7 +198,7 @@ NotHalted(s) == ~s.halted
 MsgState(s) == <<s.ent.po, s.ent.rq, s.ent.aq, s.ent.wl, s.ent.next, s.ent.p, s.wrk.p, s.wrk.ch, s.wrk.next,
                  s.bcn.p, s.bcn.ch, s.bcn.next, s.str.p, s.str.s, s.supply, s.bal["stream"]>>
 FailedTxKeepsState(s, t, ev, ok) == (ev.a = "DeliverTx" /\ ~ok) => MsgState(s) = MsgState(t)
-QueriesAndChecksReadOnly(s, t, ev) == ev.a \in {"CheckTx", "Commit", "Crash"} => ModState(s) = ModState(t)
+QueriesAndChecksReadOnly(s, t, ev) == ev.a \in {"CheckTx", "Commit", "Crash", "ListQueries"} => ModState(s) = ModState(t)
 
 ------------------------------------------------------------------------------
 (* C16 *)
